@@ -348,6 +348,191 @@ async fn run_one(sc: &Value, idx: usize) -> Value {
     json!({"results": results, "handled": handled, "notices": notices, "names": names, "alive": alive, "registered": registered, "process_count": node.process_count().await})
 }
 
+/// a recording process whose handling of client messages is a scheduling point (exit / down notices are recorded as they come)
+struct RaceRec {
+    tag: String,
+    log: Arc<Mutex<Vec<Value>>>,
+}
+
+impl edp_node::Process for RaceRec {
+    async fn handle_message(&mut self, msg: edp_node::Message) -> edp_node::Result<()> {
+        if matches!(msg, edp_node::Message::Regular { .. }) {
+            verif::point(format!("h:{}", self.tag), "h.recv", "").await;
+        }
+        let mut inner = Recorder { tag: self.tag.clone(), log: self.log.clone() };
+        inner.handle_message(msg).await
+    }
+}
+
+/// one interleaved behaviour of LocalProc (MC_LocalProcRace): every step of the model -- client operation or step of a process
+/// task -- is forced on the real node in the model's order
+async fn race_one(sc: &Value, idx: usize) -> Value {
+    let sched = AsyncSched::install();
+    sched.only(&["proc.", "h."]);
+    sched.set_free_run(true);
+    let mut node = Node::new(format!("rc{}@127.0.0.1", idx % 5 + 1), COOKIE);
+    if node.start(0).await.is_err() {
+        sched.uninstall();
+        return json!({"tool_error": "node start"});
+    }
+    let node = Arc::new(node);
+    let log = Arc::new(Mutex::new(Vec::new()));
+    let mut pids: HashMap<String, ExternalPid> = HashMap::new();
+    let mut refs: HashMap<i64, ExternalReference> = HashMap::new();
+    let mut notes: Vec<String> = Vec::new();
+    let mut results = Vec::new();
+    let steps = sc["steps"].as_array().cloned().unwrap_or_default();
+    for op in sc["hist"].as_array().cloned().unwrap_or_default().iter().filter(|o| o[0] == "spawn") {
+        let x = op[1].as_str().unwrap_or("").to_string();
+        match node.spawn(RaceRec { tag: x.clone(), log: log.clone() }).await {
+            Ok(pid) => { pids.insert(x, pid); }
+            Err(_) => { sched.uninstall(); return json!({"tool_error": "spawn"}); }
+        }
+    }
+    sched.set_free_run(false);
+    let handled_of = |log: &Arc<Mutex<Vec<Value>>>, p: &str| log.lock().unwrap().iter().filter(|e| e["proc"] == p && e["msg"]["k"] == "regular").count();
+    let w = Duration::from_millis(800);
+    'steps: for (si, st) in steps.iter().enumerate() {
+        match st["k"].as_str().unwrap_or("") {
+            "client" => {
+                let op = &st["op"];
+                let name = op[0].as_str().unwrap_or("");
+                let x = op[1].as_str().unwrap_or("").to_string();
+                let r: String = match name {
+                    "send" | "kill" => {
+                        let id = op[2].as_i64().unwrap_or(0);
+                        let body = OwnedTerm::Tuple(vec![a(if name == "kill" { "die" } else { "msg" }), OwnedTerm::Integer(id)]);
+                        if node.send(&pids[&x], body).await.is_ok() { "ok".into() } else { "err".into() }
+                    }
+                    "link" => if node.link(&pids[&x], &pids[op[2].as_str().unwrap_or("")]).await.is_ok() { "ok".into() } else { "err".into() },
+                    "unlink" => if node.unlink(&pids[&x], &pids[op[2].as_str().unwrap_or("")]).await.is_ok() { "ok".into() } else { "err".into() },
+                    "monitor" => match node.monitor(&pids[&x], &pids[op[2].as_str().unwrap_or("")]).await {
+                        Ok(r) => { refs.insert(op[3].as_i64().unwrap_or(0), r); "ok".into() }
+                        Err(_) => "err".into(),
+                    },
+                    "demonitor" => match refs.get(&op[3].as_i64().unwrap_or(0)) {
+                        Some(r) => if node.demonitor(&pids[&x], &pids[op[2].as_str().unwrap_or("")], r).await.is_ok() { "ok".into() } else { "err".into() },
+                        None => "err".into(),
+                    },
+                    _ => "skip".into(),
+                };
+                results.push(json!(r));
+            }
+            "client2" => {}
+            "proc" => {
+                let p = st["p"].as_str().unwrap_or("").to_string();
+                let actor = format!("proc:{}", pids[&p].id);
+                let to = st["to"].as_str().unwrap_or("");
+                match to {
+                    "running" | "failed" => {
+                        let h = format!("h:{p}");
+                        if sched.wait_parked(&h, w).await.map(|x| x.0) != Some("h.recv".into()) {
+                            notes.push(format!("step {si}: {p} is not waiting to handle a message"));
+                            break 'steps;
+                        }
+                        let before = handled_of(&log, &p);
+                        sched.release(&h);
+                        let t0 = std::time::Instant::now();
+                        while handled_of(&log, &p) == before && t0.elapsed() < w {
+                            tokio::time::sleep(Duration::from_micros(200)).await;
+                        }
+                        if to == "failed" && sched.wait_parked(&actor, w).await.map(|x| x.0) != Some("proc.failed".into()) {
+                            notes.push(format!("step {si}: {p} did not reach proc.failed"));
+                            break 'steps;
+                        }
+                    }
+                    "notify_links" => {
+                        sched.release(&actor);
+                        if sched.wait_parked(&actor, w).await.map(|x| x.0) != Some("proc.links_snapshot".into()) {
+                            notes.push(format!("step {si}: {p} did not reach proc.links_snapshot"));
+                            break 'steps;
+                        }
+                    }
+                    "snap_mons" => {
+                        // exit notices, monitor snapshot and down notices: one stretch of the real exit path
+                        sched.release(&actor);
+                        if sched.wait_parked(&actor, w).await.map(|x| x.0) != Some("proc.removing".into()) {
+                            notes.push(format!("step {si}: {p} did not reach proc.removing"));
+                            break 'steps;
+                        }
+                    }
+                    "notify_mons" | "removing" => {}
+                    "gone" => {
+                        sched.release(&actor);
+                        let t0 = std::time::Instant::now();
+                        while node.registry().get(&pids[&p]).await.is_some() && t0.elapsed() < w {
+                            tokio::time::sleep(Duration::from_micros(200)).await;
+                        }
+                    }
+                    other => {
+                        notes.push(format!("step {si}: unknown phase {other}"));
+                        break 'steps;
+                    }
+                }
+            }
+            _ => {}
+        }
+    }
+    sched.set_free_run(true);
+    tokio::time::sleep(Duration::from_millis(40)).await;
+    let pid_name = |d: &Value| -> Value {
+        for (k, p) in pids.iter() {
+            if &denote(&OwnedTerm::Pid(p.clone())) == d {
+                return json!(k);
+            }
+        }
+        json!("?")
+    };
+    let ref_no = |d: &Value| -> Value {
+        for (k, r) in refs.iter() {
+            if &denote(&OwnedTerm::Reference(r.clone())) == d {
+                return json!(k);
+            }
+        }
+        json!(0)
+    };
+    let mut handled: HashMap<String, Vec<Value>> = HashMap::new();
+    let mut notices: HashMap<String, Vec<Value>> = HashMap::new();
+    for e in log.lock().unwrap().iter() {
+        let p = e["proc"].as_str().unwrap_or("").to_string();
+        let m = &e["msg"];
+        match m["k"].as_str() {
+            Some("regular") => {
+                let id = m["body"]["e"][1]["mag"].as_array().map(|d| d.iter().enumerate().fold(0i64, |acc, (i, x)| acc + (x.as_i64().unwrap_or(0) << (8 * i)))).unwrap_or(-1);
+                handled.entry(p).or_default().push(json!(id));
+            }
+            Some("exit") => notices.entry(p).or_default().push(json!(["exit", pid_name(&m["from"]), 0])),
+            Some("monitor_exit") => notices.entry(p).or_default().push(json!(["down", pid_name(&m["from"]), ref_no(&m["ref"])])),
+            _ => notices.entry(p).or_default().push(json!(["other", m["k"], 0])),
+        }
+    }
+    let mut alive = serde_json::Map::new();
+    for (k, p) in pids.iter() {
+        alive.insert(k.clone(), json!(node.registry().get(p).await.is_some()));
+    }
+    sched.uninstall();
+    json!({"results": results, "handled": handled, "notices": notices, "alive": alive, "notes": notes})
+}
+
+pub fn run_race(args: &[String]) -> i32 {
+    // localproc-race <scenarios.ndjson> <out.ndjson>
+    let scenarios = read_ndjson(&args[0]);
+    let rt = tokio::runtime::Builder::new_multi_thread().worker_threads(4).enable_all().build().expect("rt");
+    let mut w = NdWriter::create(&args[1]);
+    rt.block_on(async {
+        let listener = TcpListener::bind("127.0.0.1:0").await.expect("bind");
+        let (epmd_port, _epmd) = fake_epmd(listener.local_addr().unwrap().port()).await;
+        verif::set_epmd_port(epmd_port);
+        for (i, sc) in scenarios.iter().enumerate() {
+            let mut o = race_one(sc, i).await;
+            o["id"] = sc["id"].clone();
+            w.put(&o);
+        }
+    });
+    w.finish();
+    0
+}
+
 pub fn run(args: &[String]) -> i32 {
     // localproc-run <scenarios.ndjson> <out.ndjson>
     let scenarios = read_ndjson(&args[0]);
